@@ -363,3 +363,57 @@ def Sum_applied(fol, flog, cmd, other, x):
             elif e[0] == other:
                 tot = tot + x + 10
     return tot
+
+
+@obligation('EV', props=('C03',), quick=[dict(N=5), dict(N=4)], thorough=[dict(N=5), dict(N=4), dict(N=3)], stubs=_STUBS,
+            bounds='one candidate of an N-node cluster and one real voter; request, grant, then any of: connection flap, repeated request, election-timer tick that is not due; all resulting messages delivered both ways')
+def EV(inp, N):
+    """a grant is counted once: after a voter has granted its vote to a candidate, no connection flap, repeated delivery of the
+    request or idle tick makes the candidate count that voter a second time in the same term."""
+    ids = 'abcde'[:N]
+    now = inp.real('now', 0)
+    clock = so.Clock(now)
+    cand, ctr = so.make('a', [x for x in ids if x != 'a'], clock, inp)
+    vot, vtr = so.make('b', [x for x in ids if x != 'b'], clock, inp)
+    a, b = Node('a'), Node('b')
+    t = inp.int('t', 1, 3)
+    put(cand, 'raftCurrentTerm', t); put(cand, 'raftState', C); put(cand, 'votedForNodeId', 'a'); put(cand, 'votesCount', 1)
+    put(cand, 'raftElectionDeadline', now + 100); get(cand, 'connectedNodes').add(b)
+    put(vot, 'raftCurrentTerm', inp.int('vt', 0, 3)); put(vot, 'raftElectionDeadline', now + 100); get(vot, 'connectedNodes').add(a)
+    inp.assume(get(vot, 'raftCurrentTerm') < t)
+    recvC, recvV = getattr(cand, P + 'onMessageReceived'), getattr(vot, P + 'onMessageReceived')
+    req = {'type': 'request_vote', 'term': t, 'last_log_index': 1, 'last_log_term': 0}
+    exc = [None]
+
+    def g(f, *args):
+        if exc[0] is None:
+            _, exc[0] = guard(f, *args)
+    cpos, vpos = [0], [0]
+
+    def pump():
+        for _ in range(3):
+            for nd, m in ctr.sent[cpos[0]:]:
+                if nd == b:
+                    g(recvV, a, m)
+            cpos[0] = len(ctr.sent)
+            for nd, m in vtr.sent[vpos[0]:]:
+                if nd == a:
+                    g(recvC, b, m)
+            vpos[0] = len(vtr.sent)
+    g(recvV, a, req)
+    pump()
+    after_first = get(cand, 'votesCount')
+    ev = inp.choice('event', 4)
+    if ev == 0:
+        g(getattr(cand, P + 'onNodeDisconnected'), b); g(getattr(cand, P + 'onNodeConnected'), b)
+        g(getattr(vot, P + 'onNodeDisconnected'), a); g(getattr(vot, P + 'onNodeConnected'), a)
+    elif ev == 1:
+        g(recvV, a, dict(req))                 # the request arrives a second time (retransmission)
+    elif ev == 2:
+        g(cand._onTick, 0.0); g(vot._onTick, 0.0)
+    pump()
+    cl = {'no_exception': exc[0] is None}
+    cl['first_grant_counted'] = Eq(after_first, 2)
+    cl['voter_counted_once'] = get(cand, 'votesCount') <= 2
+    cl['no_leader_from_one_voter'] = Implies(N >= 4, Not(cand._isLeader()))
+    return Res(cl, nontrivial=True, obs=lambda: dict(N=N, event=ev, votes=show(get(cand, 'votesCount')), leader=cand._isLeader(), exc=show(exc[0])))
